@@ -8,7 +8,8 @@
 (* boundary metadata; (bob,s1) (same salt, other deployer); canonical registration of  *)
 (* two tokens; remote deploy messages for a fresh id and for ids colliding with a      *)
 (* local id and with a canonical id (before and after those are taken); re-deploys;    *)
-(* and after every deployment an inbound transfer to each service-deployed token.      *)
+(* and after every deployment an inbound transfer to each service-deployed token;      *)
+(* one outbound request (remote deployment of either kind, transfer) per history.       *)
 EXTENDS ITSMC
 CONSTANT Small     \* TRUE: the reduced instance of the quick tier
 VARIABLE st
@@ -25,7 +26,7 @@ MC_Metas == [good      |-> [nameLen |-> 10, symLen |-> 4, decimals |-> 7,   utf8
              emptyName |-> [nameLen |-> 0,  symLen |-> 4, decimals |-> 7,   utf8 |-> TRUE, style |-> "ascii"],
              emptySym  |-> [nameLen |-> 5,  symLen |-> 0, decimals |-> 7,   utf8 |-> TRUE, style |-> "ascii"],
              dec256    |-> [nameLen |-> 5,  symLen |-> 4, decimals |-> 256, utf8 |-> TRUE, style |-> "ascii"],
-             sacMeta   |-> [nameLen |-> 6,  symLen |-> 6, decimals |-> 7,   utf8 |-> TRUE, style |-> "ascii"]]
+             sacMeta   |-> [nameLen |-> 6,  symLen |-> 6, decimals |-> 7,   utf8 |-> TRUE, style |-> "sac"]]
 MC_Keys == {"k0"}
 MC_Deliveries == [d0 |-> [key |-> "k0", srcChain |-> "axelar", srcAddr |-> "hub", dest |-> "its", payload |-> "tx_iA1"]]
 
@@ -49,6 +50,11 @@ FullActs(s) ==
            minter |-> "none", auth |-> {"bob"}]}
     \cup {[name |-> "RegisterCanonical", tok |-> t] : t \in Canon}
     \cup {[name |-> "Deliver", payload |-> p] : p \in DOMAIN RawPayloads}
+    \* the outbound entry points look ids up; they must not write the registry (one gas unit: once per history)
+    \cup {[name |-> "DeployRemoteCanonical", tok |-> "sac", dest |-> "ethereum", spender |-> "alice", gas |-> 1, auth |-> {"alice"}],
+          [name |-> "DeployRemoteInterchainToken", caller |-> "alice", salt |-> "s1", dest |-> "ethereum", gas |-> 1, auth |-> {"alice"}],
+          [name |-> "InterchainTransfer", caller |-> "alice", id |-> "cS", dest |-> "ethereum", destAddr |-> "0xdest", amt |-> 1,
+           data |-> "none", gas |-> 1, auth |-> {"alice"}]}
 
 Acts(s) ==
     IF ~Small THEN FullActs(s)
@@ -59,7 +65,7 @@ Acts(s) ==
 
 (* instance pruning: every inbound probe at most once per token *)
 Within(s) == \A t \in Ids : s.bal[t]["bob"] <= 1 \/ t = "iB1"
-InitState == [Blank("owner0") EXCEPT !.trusted["ethereum"] = TRUE]
+InitState == [Blank("owner0") EXCEPT !.trusted["ethereum"] = TRUE, !.gas["alice"] = 1]
 Init == st = InitState
 EnabledActs(s) == {a \in Acts(s) : Within(Apply(s, a).post) /\ (a.name = "Deliver" /\ Payloads[a.payload].inner = "transfer" /\ Payloads[a.payload].id = "iB1" => s.bal["iB1"]["bob"] <= 5)}
 Next == \E a \in EnabledActs(st) : st' = Apply(st, a).post
@@ -86,6 +92,7 @@ C11_Roles == Step(Roles)
 C11_Mintable == Step(Mintable)
 C11_TakenIdsRefuse == Step(TakenIdsRefuse)
 C11_Frame == Step(Frame)
+Compose == Step(ComposeStep)
 C11_IdsDistinct == \A d1, d2 \in DOMAIN IdOf : \A s1 \in DOMAIN IdOf[d1], s2 \in DOMAIN IdOf[d2] :
                       (<<d1, s1>> # <<d2, s2>>) => IdOf[d1][s1] # IdOf[d2][s2]
 
